@@ -230,11 +230,13 @@ PROPS['C06'] = {
     'runs': [{'name': 'asan', 'flavour': 'asan', 'driver': 'drv_c06'},
              {'name': 'native', 'flavour': 'asan-native', 'driver': 'drv_c06', 'env': {'PV_SCALE': '15'}, 'shards': 4},
              # no 32-bit C library exists in this image: the library is built freestanding for i386 and x86-64 and the two programs must print the same transcript
-             {'name': 'ilp32', 'kind': 'ilp32', 'flavour': 'ilp32', 'driver': 'ilp32'}],
+             {'name': 'ilp32', 'kind': 'ilp32', 'flavour': 'ilp32', 'driver': 'ilp32'},
+             # coverage-guided buffers (and enabled-feature masks) into polyseed_load, judged by the reference codec on every input
+             {'name': 'fuzz-load', 'kind': 'fuzz', 'flavour': 'fuzz', 'driver': 'fuzz_api', 'mode': 5, 'runs_quick': 60000, 'runs_thorough': 4000000}],
     'require': {'buffers.on_a_read_only_page_before_a_guard_page': 20000, 'roundtrip.created_with_out_of_range_clock_ok': 1000, 'concurrent.loads_equal_specification': 50000, 'roundtrip.ok': 50000, 'ilp32.transcript_lines_compared': 5000, 'buffers.alignment_mod8.1': 10000, 'buffers.alignment_mod8.7': 10000, 'fields.16bit_rows': 2000, 'fields.8bit_rows': 30, 'load.bytes8-9.recomputed-check.OK': 1000, 'load.bytes8-9.recomputed-check.ERR_UNSUPPORTED': 1000,
-                'load.bytes8-9.recomputed-check.ERR_FORMAT': 1000, 'load.bytes30-31.ERR_CHECKSUM': 1000, 'load.random-with-framing+recomputed-check.OK': 100},
+                'load.bytes8-9.recomputed-check.ERR_FORMAT': 1000, 'load.bytes30-31.ERR_CHECKSUM': 1000, 'load.random-with-framing+recomputed-check.OK': 100, 'fuzz.execs.fuzz-load': 20000},
 }
-MANIFEST_TEXT['C06'] = {'technique': 'runtime monitoring: store/load on exact-size heap buffers vs model image codec; exhaustive field sweeps around valid images (ASan/UBSan) + ledger',
+MANIFEST_TEXT['C06'] = {'technique': 'runtime monitoring: store/load on exact-size heap buffers vs model image codec; exhaustive field sweeps around valid images (ASan/UBSan) + ledger; libFuzzer target judged by the reference codec',
     'text': 'polyseed_store output is compared with the model image for seeds from load and create; polyseed_load is judged against the model load_spec (first applicable of FORMAT, CHECKSUM, UNSUPPORTED) on exhaustive sweeps of bytes 8-9 (with stale and with recomputed check value), every header byte, byte 28, byte 29 and bytes 30-31 around sampled valid images under rotating feature masks, on multi-bit mutations and on random buffers with and without valid framing; every accepted buffer must be reproduced by store, and the allocator ledger must show no block left after a failed load. A last section loads and stores from 8 threads at once (yields inside the allocator callback). Half of the enabling calls carry arbitrary high argument bits, and seeds created at out-of-range clocks must store the model image and load again.',
     'note': _TB + '2^256 buffers are sampled; the non-secret fields are enumerated completely around each sampled image. Platform independence is observed on x86-64 only.'}
 
